@@ -161,10 +161,40 @@ def gen_cases(rng, tier):
         yield {"ops": ops}
 
 
+class Overlay(dict):
+    """a copy-on-write database: a dict subclass whose reads fall back to the store of an earlier root (`__missing__`);
+    writes stay in the overlay"""
+
+    def __init__(self, parent):
+        super().__init__()
+        self.parent = parent
+
+    def __missing__(self, key):
+        return self.parent[key]
+
+
+class Merged:
+    """what the trie can read: the parent's entries overlaid with the overlay's own (the plain dict when no overlay is in use)"""
+
+    def __init__(self, base):
+        self.base, self.over = base, None
+
+    def snap(self):
+        d = dict(self.base)
+        if self.over is not None:
+            d.update(dict.items(self.over))
+        return d
+
+
 def run_case(case):
     res = common.CaseResult()
-    db = {}
-    t = BinaryTrie(db)
+    base = {}
+    view = Merged(base)
+    t = BinaryTrie(base)
+    # at one point of the history the trie object is replaced: re-opened on a fresh, equal-but-not-identical copy of its
+    # root hash (the blank root included), over the same dict or over a copy-on-write overlay of it
+    reopen_at = (len(case["ops"]) * 7 + len(case["ops"][0][1])) % (len(case["ops"]) + 1) if case["ops"] else None
+    reopen_overlay = bool(case["ops"]) and len(case["ops"][-1][1]) % 4 == 2
     res.emit("bin.reset", "ok")
     res.emit("bin.new", "0")
     res.emit("bin.rrnew", "ok")
@@ -176,9 +206,21 @@ def run_case(case):
         probes |= {k + b"\x00", k[:-1] or b"\x55", k[:-1] + bytes([k[-1] ^ 1]), k[:-1] + bytes([k[-1] ^ 0x80])}
     probes = sorted(p for p in probes if p)
     maxkeys = 0
-    for op in case["ops"]:
+    for opno, op in enumerate(case["ops"]):
+        if opno == reopen_at:
+            fresh_root = bytes(bytearray(t.root_hash))
+            if reopen_overlay:
+                view.over = Overlay(base)
+                t = BinaryTrie(view.over, fresh_root)
+                res.tags.add("reopened:overlay")
+            else:
+                t = BinaryTrie(base, fresh_root)
+                res.tags.add("reopened:same-dict")
+            if fresh_root == BLANK:
+                res.tags.add("reopened:blank-root")
         kind, k = op[0], bytes.fromhex(op[1])
         v = bytes.fromhex(op[2]) if len(op) > 2 else b""
+        db = view.snap()
         before_root, before_db = t.root_hash, dict(db)
         try:
             if kind == "set":
@@ -199,6 +241,7 @@ def run_case(case):
         except Exception as e:  # noqa
             out = "exn " + type(e).__name__
             res.fail("unexpected-exception", "%r raised %r" % (op, e))
+        db = view.snap()
         line = {"set": "bin.set 0 %s %s" % (hx(k), hx(v)), "setitem": "bin.set 0 %s %s" % (hx(k), hx(v)),
                 "sete": "bin.set 0 %s -" % hx(k), "del": "bin.del 0 %s" % hx(k), "delitem": "bin.del 0 %s" % hx(k),
                 "delsub": "bin.delsub 0 %s" % hx(k)}[kind]
@@ -279,7 +322,7 @@ def run_case(case):
     for r, contents in roots.items():
         for p in probes[:8] + sorted(contents)[:6]:
             try:
-                g = BinaryTrie(db, r).get(p)
+                g = BinaryTrie(view.snap(), r).get(p)
                 outg = "None" if g is None else "v " + hx(g)
                 if g != contents.get(p):
                     res.fail("old-root-wrong", "root %s: get(%r)=%r, it held %r" % (r.hex()[:12], p, g, contents.get(p)))
